@@ -154,7 +154,7 @@ def scn_setup(comm, cfile, layout, plot, folder=None, draw=0):
     return [mn, mx, m2]
 
 
-def scn_restart(comm, cfile, folder, plot=False, draw=0):
+def scn_restart(comm, cfile, folder, plot=False, draw=0, saved=True):
     """write a checkpoint with all ranks, then the restart set-up (setupFromFile) with / without a plot-only rank, then layout changes"""
     import shutil
     from pygyro.initialisation.setups import setupCylindricalGrid, setupFromFile
@@ -165,12 +165,15 @@ def scn_restart(comm, cfile, folder, plot=False, draw=0):
             os.makedirs(folder, exist_ok=True)
             shutil.copy(cfile, os.path.join(folder, "initParams.json"))
         comm.Barrier()
-        g0.writeH5Dataset(folder, 0)
-        comm.Barrier()
-        grid, constants, t = setupFromFile(folder, comm=comm, plotThread=plot, drawRank=draw, allocateSaveMemory=True)
+        if saved:
+            g0.writeH5Dataset(folder, 0)
+            comm.Barrier()
+            grid, constants, t = setupFromFile(folder, comm=comm, plotThread=plot, drawRank=draw, allocateSaveMemory=True)
+        else:           # a folder that holds the parameter file only: fresh start in the requested layout
+            grid, constants, t = setupFromFile(folder, comm=comm, plotThread=plot, drawRank=draw, allocateSaveMemory=True, layout="v_parallel")
         for l2 in ("flux_surface", "poloidal", "v_parallel"):
             grid.setLayout(l2)
-        return [float(t), grid.getMax(draw)]
+        return [float(t), grid.getMax(draw), grid.getMin(draw), grid.getMax(draw, 0, 1)]
 
 
 def scn_diag(comm, cfile, savestep=3):
